@@ -110,9 +110,8 @@ Definition holds14_b (c : rcase) : bool :=
                     end) (c_ops c).
 Definition holds14 (c : rcase) : Prop := holds14_b c = true.
 
-(* known finding K10 leaves the loop with a muted current world, after which
-   quit_loop's on_quit is held instead of delivered *)
-Definition known14_b (c : rcase) : bool := any_entry k10_entry c.
+(* no known finding for C14 *)
+Definition known14_b (c : rcase) : bool := false.
 
 Definition C14_case := rcase.
 Definition C14_verdict (c : C14_case) : nat :=
